@@ -76,6 +76,10 @@ add("C17", "smmc", "fault_enumeration", "exhaustive enumeration of single and pa
     "A real multi-chunk snapshot stream is mutated by every single fault and every ordered pair from {drop, duplicate, swap, checksum corruption, data corruption, other leader id, other leader term, missing metadata, wrong total, early close, stall until the receiver's timeout} and fed to the real apply_snapshot_stream_from_leader of a follower holding a different state; oracle: the complete in-order stream is accepted and yields exactly the snapshot's state, every faulty stream is rejected and leaves key-value contents, TTL keys, applied index, snapshot metadata and the final files of the snapshot directory untouched. File engine in the quick tier, File + RocksDB in the thorough tier.",
     "Chunk-level checksums; streams in which the sender lies consistently about total_chunks are outside the fault list and not judged; crash points of the File install path are covered by C15's sweep of the persist functions.", "DESIGN.md section 4 C17")
 
+add("C25", "smmc", "model_checking", "exhaustive enumeration of scan/apply interleavings at the declared yield points of the real state machines, plus an input grid over prefix-boundary key sets",
+    "Part 1: every subset of 0xFF-boundary keys (64 quick / 256 thorough) x 8 prefixes on both engines: result == reference filter and revision == applied index. Part 2: 3 base states x 7 chunks x 3 prefixes x every yield point between the steps in which apply publishes data and applied index and in which scan reads entries and revision (File: after WAL append / after the in-memory update / after the index update; RocksDB: after the batch write, and inside scan after the iteration): the other activity is started on its own thread exactly there (if a lock of the outer activity blocks it, it completes afterwards), so every interleaving of one scan and one apply at these points is executed; oracle: entries == reference state at the revision the scan reports. The RocksDB empty-prefix defect (pinned by a unit test) is a recorded known finding.",
+    "Interleavings at the declared yield points only; RocksDB internals trusted; one scanner and one applier.", "DESIGN.md section 4 C25")
+
 NOT_BUILT = "check not built yet (work in progress, DESIGN.md section 10 build order); no verdict is claimed for this property"
 
 manifest = {
